@@ -30,4 +30,8 @@ def run(ctx):
     ER.clause_block_info_reset(R, F, owners=("clear_caches",))
     # commit persists, per key, exactly the latest value the cache served (so that dropping the cache changes no answer)
     T.clause_commit_per_key(R, F)
+    # a commit must not drop a history that an accepted reorg still needs: which commit placements are harmless depends on
+    # the pruning guard (is_old) being exactly the window
+    import windowrules as W2
+    W2.clause_history_window(R, F)
     return R
